@@ -586,6 +586,9 @@ def ResolveBinaryExpressionType(
     assert isinstance(operation, op.Operation)
 
     if op.IsComparison(operation):
+        if left.GetKind() != right.GetKind():
+            Errors.ERROR_INCOMPATIBLE_TYPES.Raise(left, right)
+
         # Cast may be still necessary if we compare integers with floats
         baseType = _GetCommonPrimitiveType(left, right)
 
@@ -646,7 +649,7 @@ def ResolveBinaryExpressionType(
 
         # At this point, must be a MUL of matrix * vector or matrix * matrix
         # We must prevent vector * vector
-        if leftShape[1] != rightShape[0]:
+        if not left.IsMatrix() or leftShape[1] != rightShape[0]:
             Errors.ERROR_INVALID_BINARY_EXPRESSION_OPERATION.Raise(
                 operation, left, right
             )
